@@ -27,7 +27,8 @@ LEVEL_TEXT = ("Real child processes (well-behaved, exiting at every step k of th
               ' Also a flooding child that exits 0 on SIGTERM.'
               ' Also a native asyncio deadline (asyncio.timeout) during the grace periods, a 0.1 ms-step sweep of cancellation through the spawn (children looked up in /proc by parent pid), and an unread backlog of 99-130 messages ending in an id-carrying one.'
               ' Also a child flooding stdout with short lines that are not messages.'
-              ' Also a flood without line breaks (repeated attempts, race-dependent), and (virtual time, scripted child) a request pending on the per-request API when the child dies / the context is left.')
+              ' Also a flood without line breaks (repeated attempts, race-dependent), and (virtual time, scripted child) a request pending on the per-request API when the child dies / the context is left.'
+              ' Also exits that take longer than the designed 2.5 s plus slack are measured again twice (three in a row are a violation); the longest exit per child and exit path is recorded in the evidence.')
 LEVEL_NOTE = ("Trusted: /proc inspection, the spy around anyio.open_process (records pids of every spawn). Wall-clock bound "
               "uses 1.5 s slack; a breach is re-measured once in isolation and only a reproduced breach is a violation "
               "(a single one is inconclusive).")
@@ -37,6 +38,11 @@ ASSUMPTIONS = ["Linux /proc; children are started in their own session (start_ne
                "harness (killpg) after observation so that a leak cannot outlive the case"]
 
 BOUND = 2.0 + 1.5
+# What the exit path is built from: the two one-second grace periods (after SIGTERM, after SIGKILL) and the half second it
+# waits for the writer to drain. An exit that takes longer than that plus a little scheduling slack - yet stays under BOUND -
+# is measured again (twice): three slow exits in a row are no scheduling accident, the exit path has grown a further wait
+DESIGNED = 2.0 + 0.5
+NEAR = DESIGNED + 0.35
 
 
 def gen_cases(ctx) -> List[Dict[str, Any]]:
@@ -256,6 +262,23 @@ def judge(ctx, case: Dict[str, Any], o: Dict[str, Any], remeasure) -> None:
                           f"re-measurement (bound {BOUND}s)", case, o)
         else:
             ctx.inconclusive_because(f"exit took {d:.2f}s once, {d2}s on re-measurement: {case}")
+    elif d is not None and d > NEAR:
+        ds = [d]
+        for _ in range(2):
+            o2 = remeasure(case)
+            d2 = o2.get("exit_duration")
+            ds.append(d2)
+            if o2.get("watchdog") or d2 is None or d2 <= NEAR:
+                break
+        if len(ds) == 3 and all(x is not None and x > NEAR for x in ds):
+            ctx.violation("exit_unbounded", f"context exit took {', '.join(f'{x:.2f}' for x in ds)} s on three measurements in a row: "
+                          f"more than the two one-second grace periods and the writer's half second ({DESIGNED} s) plus slack", case, o)
+        else:
+            ctx.count("exit_near_bound_once")
+    if d is not None:
+        key = str(b).split(":")[0] + ":" + str(case.get("exit"))
+        mx = ctx.extra.setdefault("longest_exit_seconds_by_child_and_path", {})
+        mx[key] = round(max(mx.get(key, 0.0), d), 2)
     shape.append("slow" if (d or 0) > BOUND else "bounded")
     # pending request
     po = o.get("pending_outcome")
